@@ -362,7 +362,9 @@ def corpus_checks(ctx):
                       '1x1x1 survey is not accepted', {'corpus': '1x1x1'})
     # the documented amplitude cut: data below HALF the noise floor are set to
     # NaN by add_noise(min_amplitude='half_nf') (the default), others kept
-    amp = np.array([0.2, 0.34, 0.45, 0.49, 0.51, 0.55, 0.9, 3.0]).reshape(2, 2, 2)
+    # (purely imaginary data, so that the amplitudes are exact: 0.5 x the noise
+    # floor is a tie and is kept - the rule is "smaller than")
+    amp = np.array([0.2, 0.34, 0.49, 0.5, 0.51, 0.55, 0.9, 3.0]).reshape(2, 2, 2)
     for nfl in (2.0, np.array([1.0, 4.0]).reshape(1, 1, 2),
                 np.arange(1, 9).reshape(2, 2, 2)/2.0):
         nfa = np.broadcast_to(np.asarray(nfl, float), (2, 2, 2))
@@ -371,7 +373,7 @@ def corpus_checks(ctx):
                      emg3d.TxElectricPoint((5, 0, 0, 0, 0))],
             receivers=[emg3d.RxElectricPoint((10, 0, 0, 0, 0)),
                        emg3d.RxElectricPoint((20, 0, 0, 0, 0))],
-            frequencies=[1.0, 2.0], data=(amp*nfa)*np.exp(0.7j),
+            frequencies=[1.0, 2.0], data=(amp*nfa)*1j,
             noise_floor=nfl)
         for kw in (dict(), dict(min_amplitude='half_nf')):
             s2.add_noise(add_to='cut', **kw)
